@@ -56,8 +56,8 @@ CLAIMED = {
    technique="Coq existence/impossibility theorems + exhaustive outcome enumeration against a recorded known-finding table",
    design="6 C06"),
  "C07": dict(
-   text="Proof + bounded computation + exploration. For all N,k: the model of construct_universal_set has 2N+1 strings of length N (C07_size), pairwise distinct for every N and k>=2 (C07_distinct); does NOT generate su(2^N) for any odd k and any N (C07_refuted_odd_k); generates all 4^N-1 strings for even k, N<=6 (vm_compute with the verified closure). Per run: construct_universal_set vs model for all k, N<=16 incl. the ValueError guard; closure size N<=6 (8 thorough); the classifier's name N<=10 (14).",
-   note="Even k for N>6 is explored, not proved. Known finding: odd k. No axioms.",
+   text="Proof (all N, all k) + exploration. For all N,k: the model of construct_universal_set has 2N+1 strings of length N (C07_size), pairwise distinct for every N and k>=2 (C07_distinct); does NOT generate su(2^N) for any odd k and any N (C07_refuted_odd_k); for every even k>=2 and every N its commutator closure is exactly the 4^N-1 non-identity strings (C07_even_k: the left set on an even number of qubits generates everything, then one right qubit at a time, C07_one_more_qubit). Per run: construct_universal_set vs model for all k, N<=16 incl. the ValueError guard; closure size N<=6 (8 thorough); the classifier's name N<=10 (14).",
+   note="The clause about the library's own classifier (reports su(2^N)) is compared per run (N<=10/14), not proved. Known finding: odd k. No axioms.",
    technique="Coq proofs (size, quadratic-form refutation) + kernel computation over the verified closure + exact set comparison",
    design="6 C07"),
  "C11": dict(
